@@ -723,7 +723,7 @@ class CodecPairs(Stream):
         return None
 
     def finding_key(self, case, what):
-        if case["codec"] == "ifrange" and case["etag"] not in (None, "~") and "parse(dump(v)) != v" in what and "date=datetime" in what:
+        if case["codec"] == "ifrange" and case["etag"] not in (None, "~") and "parse(dump(v)) != v: etag=None date=datetime" in what:
             return "F06a"
         return None
 
